@@ -368,7 +368,8 @@ class Twin:
     def write(self, b):
         if not self.w:
             return None
-        if self.append:
+        if self.append and b:
+            # O_APPEND moves to the end when bytes are written; a write of nothing writes nothing and moves nothing
             self.pos = len(self.data)
             self.pos_known = True
         if self.pos > len(self.data):
